@@ -138,6 +138,10 @@ def slice_prog(ctx):
     cl = corpus_lines('eval')
     lines = cl + lines
     srcs = ['corpus'] * len(cl) + srcs
+    # higher-order lambdas: closures built, returned, stored, passed and called later (dynamic scoping)
+    ho = gens2.closure_cases(ctx['seed'], max(500, N // 10))
+    lines += [c[0] for c in ho]
+    srcs += ['[closures] ' + c[1] for c in ho]
     io, mo, d, dt = corr.compare(lines)
     nontriv = [i for i, a in enumerate(io) if a.startswith('ok') or a.startswith('err')]
     r = _finish('prog', lines, srcs, io, mo, d, dt,
@@ -210,7 +214,7 @@ def slice_probe(ctx):
 
 
 def slice_scope(ctx):
-    cases = gens2.scope_cases(ctx['seed'], sz(ctx, 8000, 100000))
+    cases = gens2.scope_cases(ctx['seed'], sz(ctx, 8000, 100000)) + gens2.closure_cases(ctx['seed'] + 7, sz(ctx, 3000, 40000))
     return _eval_slice('scope', cases, 'one name bound at builtin / host / top-level / parameter level, lambda bodies that read, assign, '
                        'compound-assign or raise, called via apply / map / sorted / reduce / try_apply / recursion')
 
@@ -270,8 +274,8 @@ def _sessions(ctx, tag, n, caches, texts=None, evals_only=False):
 
 
 def slice_session(ctx):
-    """G-hist without cache (C11)"""
-    lines, descr = _sessions(ctx, 'hist', sz(ctx, 1500, 20000), ['none'])
+    """G-hist (C11): parsers without a cache and parsers with a plain dict cache (the property speaks about every SqParser)"""
+    lines, descr = _sessions(ctx, 'hist', sz(ctx, 1500, 20000), ['none', 'none', 'dict'])
     io, mo, _, dt = corr.compare(lines)
     d = _session_cmp(lines, io, mo)
     return _finish('session', lines, descr, io, mo, d, dt,
@@ -429,9 +433,12 @@ def slice_name_lookup(ctx):
     cases = []
     for i in range(N):
         r = random.Random(f'{ctx["seed"]}/namelookup/{i}')
+        # spellings that Unicode normalisation (NFC / NFKC / case folding) would change: the host binds EXACTLY the raw spelling
+        odd = ['%\u0438\u0306%', '%\u212b%', '%e\u0301t\u00e9%', '%\ufb01le%', '%\u00c5%', '%\u0130%', '%\u1e9e%', '%K%', '%\u212a%']
         ent = (f'(S:{hx("user")} (M 1 (S:{hx("name")} S:{hx("Ann")}) (S:{hx("tags")} (L 2 S:61)))) (S:{hx("a")} I:1) (S:{hx("b")} I:2) '
-               f'(S:{hx("%a%")} I:10) (S:{hx("a.b")} I:3) (S:{hx("order")} (L 3 I:5 I:6))')
-        nm = r.choice(['%user.name%', '%user.tags%', '%a.b%', '%a%', '%a b%', '%a+b%', '%order.0%', '%user.name.upper%', '%user%', 'user', '%b%', '%order.1%'])
+               f'(S:{hx("%a%")} I:10) (S:{hx("a.b")} I:3) (S:{hx("order")} (L 3 I:5 I:6)) ' +
+               ' '.join(f'(S:{hx(o)} I:{70 + j})' for j, o in enumerate(odd) if r.random() < 0.7))
+        nm = r.choice(['%user.name%', '%user.tags%', '%a.b%', '%a%', '%a b%', '%a+b%', '%order.0%', '%user.name.upper%', '%user%', 'user', '%b%', '%order.1%'] + odd)
         src = r.choice([nm, f'{nm} + 1', f'len({nm})', f'x = {nm}; x', f'try_apply(w => {nm}, 0)', f'[{nm}, a]', f'f = v => {nm}; f(1)', f'{nm} = 5; {nm}'])
         cases.append((gens2.eval_line(src, ent), src))
     return _eval_slice('name_lookup', cases, '%...% names with dots / blanks / operators whose parts are bound by the host, in every '
